@@ -661,13 +661,11 @@ pub enum ScaledOffset {
 pub struct Policy {
     pub dev: Deviations,
     pub scaled: ScaledOffset,
-    /// SCALED and UNSCALED both set (invalid font): true = treat as scaled, false = treat as unscaled (the default)
-    pub both_flags_scale: bool,
 }
 
 impl Policy {
     pub fn spec() -> Policy {
-        Policy { dev: Deviations::default(), scaled: ScaledOffset::Matrix, both_flags_scale: false }
+        Policy { dev: Deviations::default(), scaled: ScaledOffset::Matrix }
     }
 }
 
@@ -704,10 +702,12 @@ fn apply(m: (f64, f64, f64, f64), x: f64, y: f64) -> (f64, f64) {
 
 fn component_offset(comp: &Component, m: (f64, f64, f64, f64), pol: &Policy, dx: i16, dy: i16) -> (f64, f64) {
     let (dx, dy) = (dx as f64, dy as f64);
+    // glyf chapter: "If a font has both flags set, this is invalid; the rasterizer should use its default
+    // behavior for this case" - a component with both flags is placed exactly like one with neither flag,
+    // and the default (neither flag) is the unscaled offset on Microsoft and Apple platforms (recommended for all).
     let scaled = match (comp.scaled_offset, comp.unscaled_offset) {
         (true, false) => true,
-        (true, true) => pol.both_flags_scale,
-        _ => false,
+        (true, true) | (false, false) | (false, true) => false,
     };
     if !scaled {
         return (dx, dy);
@@ -1141,5 +1141,18 @@ mod tests {
         assert_eq!(nesting_depth(&glyphs, 3), Some(2));
         assert_eq!(point_count(&glyphs, 3, 8), 4);
         assert_eq!(flatten(&glyphs, 3, &Policy::spec(), 1), Err(FlatErr::TooDeep));
+        // offset flags: SCALED alone scales the offset, both flags = neither flag = unscaled
+        let with = |s: bool, u: bool| {
+            let mut c = Component::new(0, Args::Xy(10, -20), Xform::Scale(0x2000));
+            c.scaled_offset = s;
+            c.unscaled_offset = u;
+            let g = vec![glyphs[0].clone(), Glyph::Composite { components: vec![c], instructions: 0, overlap_compound: false }];
+            let f = flatten(&g, 1, &Policy::spec(), 8).unwrap();
+            (f.pts[0].x, f.pts[0].y)
+        };
+        assert_eq!(with(false, false), (15.0, -20.0));
+        assert_eq!(with(true, true), with(false, false));
+        assert_eq!(with(false, true), (15.0, -20.0));
+        assert_eq!(with(true, false), (10.0, -10.0));
     }
 }
